@@ -193,6 +193,10 @@ class Prog:
                     return True
             return False
 
+        def whole(ty):
+            ty = re.sub(r"^'\w+ ", "", ty or "")
+            return norm_name(ty).split("<")[0].strip() == owner
+
         for b in self.f.all_bodies:
             if b.derived and not include_derived:
                 continue
@@ -206,9 +210,19 @@ class Prog:
                     rv = st["rv"]
                     if rv["r"] in ("ref", "rawptr") and rv.get("bk") in ("mut", "Mut") and hits(rv["a"]):
                         out.append((b, bb, i, "borrow_mut"))
+                    # the whole struct overwritten through a reference or inside its holder (`*self = ..`): every field is written
+                    if st["lhs"]["p"] and whole(st["lhs"].get("ty", "")):
+                        out.append((b, bb, i, "assign_whole"))
                 t = blk["term"]
                 if t["t"] == "call" and hits(t["dest"]):
                     out.append((b, bb, len(blk["stmts"]), "call_dest"))
+                if t["t"] == "call" and t["dest"]["p"] and whole(t["dest"].get("ty", "")):
+                    out.append((b, bb, len(blk["stmts"]), "call_dest_whole"))
+                if t["t"] == "call" and isinstance(t.get("func"), dict) and t["func"].get("fn", "") in ("std::mem::swap", "std::mem::replace", "std::mem::take", "core::mem::swap", "core::mem::replace", "core::mem::take"):
+                    for a in t["args"]:
+                        ty = a.get("ty", "") if isinstance(a, dict) else ""
+                        if ty.startswith("&mut ") and whole(ty[5:]):
+                            out.append((b, bb, len(blk["stmts"]), "mem_whole"))
                 if t["t"] == "drop" and hits(t["place"]):
                     pass
         return out
